@@ -15,7 +15,7 @@ After the repair of F07 (/repo 1e2d662) the value statements hold in full for ev
 regenerated profile (`C05_value_exact`, `C05_value_within_one`).
 
 PROPERTY THEOREMS (audited by ./check): C05_pull_refines, C05_pull_in_order, C05_store_of_value, C05_accumulate_total,
-C05_rows_in_range, C05_value_exact, C05_value_within_one, C05_expansion_off, C05_untouched, C05_on_minus_expanded,
+C05_rows_in_range, C05_profile_depth, C05_value_exact, C05_value_within_one, C05_expansion_off, C05_untouched, C05_on_minus_expanded,
 C05_F07_witness_fixed
 -/
 namespace Fit.C05
@@ -165,6 +165,23 @@ theorem C05_expansion_off (cv : CV) (p : Profile) (ms : List Message) :
   induction ms with
   | nil => intro acc done; simp
   | cons m ms ih => intro acc done; simp only [List.foldl_cons]; rw [ih]; simp
+
+/-! ### recursion depth of the profile -/
+
+/-- the components reachable from field `num` nest at most `k` levels deep -/
+def depthLe (p : Profile) (mesgNum : Nat) : Nat → Nat → Bool
+  | 0, _ => false
+  | k + 1, num =>
+    match lookup p mesgNum num with
+    | none => true
+    | some f => (f.comps ++ f.subs.flatMap (·.comps)).all fun c => depthLe p mesgNum k c.fieldNum
+
+/-- **side condition of the model's fuel**, checked against the regenerated profile: no field of a message that owns
+components nests its expansions deeper than 3 levels (the model recurses with fuel 8, so its fuel never runs out on this
+profile; the Go code has no bound). -/
+theorem C05_profile_depth :
+    ∀ e ∈ Fit.Gen.PA.mesgs, ∀ f ∈ e.2, depthLe Fit.Gen.PA.mesgs e.1 4 f.num = true := by
+  decide +kernel
 
 /-! ### expansion on: what may change -/
 
